@@ -905,7 +905,42 @@ class Run:
             snap = (dict(self.store), dict(self.heap), len(self.events), list(self.conds), self.di, len(self.notes), self.ncell, self.nframe,
                     getattr(self, "nobj", 0), dict(fr.vars))
             self.stmt(s.get("body"), fr)
-            changed_cells = sorted((c_ for c_ in snap[0] if self.store.get(c_) != snap[0][c_] and c_ not in counters), key=lambda c_: c_[1])
+            # cells written on paths of the body this pass did not take: every local / parameter of this frame that the body
+            # assigns, increments, mutates through a non-const member or hands to a non-const reference / pointer parameter
+            syn = set()
+            syn_mem = []
+            for x in walk(s.get("body")) if s.get("body") is not None else []:
+                tgt = []
+                kx = x.get("k")
+                if kx in ("assign", "cassign"):
+                    tgt = [x["lhs"]]
+                elif kx == "un" and x.get("op") in ("++", "--"):
+                    tgt = [x["e"]]
+                elif kx == "opcall" and x.get("args") and (x.get("op") in ("=", "++", "--", "<<", ">>") or (x.get("op") or "").endswith("=") and x.get("op") not in ("==", "!=", "<=", ">=")):
+                    tgt = [x["args"][0]] + ([x["args"][1]] if x.get("op") == ">>" and len(x["args"]) > 1 else [])
+                elif kx == "mcall" and x.get("mconst") is False and x.get("obj") is not None and not self.X.pure_method(x):
+                    tgt = [x["obj"]]
+                if kx in ("call", "mcall", "ctor"):
+                    pk = x.get("pk") or ""
+                    for i_, a_ in enumerate(x.get("args", [])):
+                        if a_ is None or i_ >= len(pk):
+                            continue
+                        if pk[i_] == "r":
+                            tgt.append(a_)
+                        elif pk[i_] == "p" and a_.get("k") == "un" and a_.get("op") == "&":
+                            tgt.append(a_["e"])
+                for t_ in tgt:
+                    while t_ is not None and t_.get("k") in ("cast",):
+                        t_ = t_["e"]
+                    while t_ is not None and t_.get("k") == "opcall" and t_.get("op") in ("<<", ">>") and t_.get("args"):
+                        t_ = t_["args"][0]
+                    if t_ is not None and t_.get("k") == "ref" and t_.get("dk") in ("local", "parm"):
+                        c_ = snap[9].get(t_.get("d") or t_.get("n"))
+                        if c_ is not None and c_ in snap[0]:
+                            syn.add(c_)
+                    elif t_ is not None and t_.get("k") == "mem":
+                        syn_mem.append(t_)
+            changed_cells = sorted((c_ for c_ in snap[0] if (self.store.get(c_) != snap[0][c_] or c_ in syn) and c_ not in counters), key=lambda c_: c_[1])
             def dflt(k_):
                 return ("a", k_[1]) if k_[0] == ("a", "::") else ("f", k_[0], k_[1])
             changed_heap = sorted((k_ for k_ in set(self.heap) | set(snap[1]) if self.heap.get(k_, dflt(k_)) != snap[1].get(k_, dflt(k_))), key=repr)
@@ -917,6 +952,23 @@ class Run:
             self.ncell, self.nframe, self.nobj = snap[6], snap[7], snap[8]
             fr.vars = dict(snap[9])
             self.status = None
+            # fields assigned somewhere in the body (addressed in the pre-loop state)
+            for t_ in syn_mem:
+                try:
+                    lv_ = self.lvalue(t_, fr)
+                except (NeedDecision, Unsupported):
+                    continue
+                k_ = None
+                if lv_[0] == "hp":
+                    k_ = (lv_[1], lv_[2])
+                elif lv_[0] == "hpv":
+                    k_ = (("obj", lv_[1]), lv_[2])
+                if k_ is not None and k_ not in changed_heap:
+                    changed_heap.append(k_)
+            changed_heap.sort(key=repr)
+            del self.events[snap[2]:]
+            self.conds = list(snap[3])
+            self.di = snap[4]
             init = {}
             for j, c_ in enumerate(changed_cells):
                 init[c_] = self.store[c_]
